@@ -63,7 +63,7 @@ def case_center(run, i):
             cols["chromosome"].append(c); cols["start"].append(s); cols["end"].append(s + 900); cols["gene"].append("G")
             cols["log2"].append(-20.0 if null else (level if const else level + float(rng.normal(0, 0.2))))
             cols["depth"].append(0.0 if null or rng.random() < 0.02 else float(rng.uniform(1, 100)))
-            cols["weight"].append(float(rng.uniform(0.1, 1)))
+            cols["weight"].append(0.0 if rng.random() < 0.06 else float(rng.uniform(0.1, 1)))      # masked (weight 0) bins are ordinary bins for centring
     if i % 3 == 0:
         del cols["depth"]
     # row order: genome order; every chromosome in two separate blocks (targets stacked on antitargets without re-sorting); shuffled
